@@ -689,15 +689,19 @@ static void auto_queries(void)
                 case 'h': t[0] = "hold"; do_api("q", t, 1); break;
                 case 'f': t[0] = "full"; do_api("q", t, 1); break;
                 case 'e': {
-                        /* one record with the non-locking observers for every command */
-                        fprintf(out, "{\"e\":\"api\",\"f\":\"qev\",\"a\":[],\"ev\":[],\"ret\":0,\"pu\":%d,\"pc\":%d,\"bf\":[",
-                                cmd_index(cat_get_processed_command(at, CAT_FSM_TYPE_UNSOLICITED)),
-                                cmd_index(cat_get_processed_command(at, CAT_FSM_TYPE_ATCMD)));
-                        for (int i = 0; i < ncmds; i++)
-                                fprintf(out, "%s[%d,%d,%d]", i ? "," : "",
-                                        (int)cat_is_unsolicited_event_buffered(at, cmds[i].c, CAT_CMD_TYPE_NONE),
-                                        (int)cat_is_unsolicited_event_buffered(at, cmds[i].c, CAT_CMD_TYPE_READ),
-                                        (int)cat_is_unsolicited_event_buffered(at, cmds[i].c, CAT_CMD_TYPE_TEST));
+                        /* one record with the non-locking observers for every command (all library calls first: a sanitizer report
+                           during them must not leave a half-written line behind) */
+                        static int bf[MAXC][3];
+                        snprintf(call_name, sizeof call_name, "qev"); call_args[0] = 0;
+                        int pu = cmd_index(cat_get_processed_command(at, CAT_FSM_TYPE_UNSOLICITED));
+                        int pc = cmd_index(cat_get_processed_command(at, CAT_FSM_TYPE_ATCMD));
+                        for (int i = 0; i < ncmds; i++) {
+                                bf[i][0] = (int)cat_is_unsolicited_event_buffered(at, cmds[i].c, CAT_CMD_TYPE_NONE);
+                                bf[i][1] = (int)cat_is_unsolicited_event_buffered(at, cmds[i].c, CAT_CMD_TYPE_READ);
+                                bf[i][2] = (int)cat_is_unsolicited_event_buffered(at, cmds[i].c, CAT_CMD_TYPE_TEST);
+                        }
+                        fprintf(out, "{\"e\":\"api\",\"f\":\"qev\",\"a\":[],\"ev\":[],\"ret\":0,\"pu\":%d,\"pc\":%d,\"bf\":[", pu, pc);
+                        for (int i = 0; i < ncmds; i++) fprintf(out, "%s[%d,%d,%d]", i ? "," : "", bf[i][0], bf[i][1], bf[i][2]);
                         fprintf(out, "]}\n");
                         break;
                 }
